@@ -125,7 +125,7 @@ func cmdVerify(args []string) int {
 	solveAll(qs, dir, *timeout, runtime.NumCPU(), false)
 	rc := 0
 	for _, qq := range qs {
-		ok := qq.result.status == qq.expect || (qq.expect == "sat" && qq.result.status == "unknown")
+		ok := qq.result.status == qq.expect || (qq.expect == "sat" && (qq.result.status == "unknown" || qq.result.status == "timeout"))
 		mark := "ok  "
 		if !ok {
 			mark = "FAIL"
@@ -300,7 +300,7 @@ func cmdCheck(args []string) int {
 			}
 		}
 		text := e.preludeFor(uses) + string(b)
-		if strings.Contains(string(b), "; table ") {
+		if strings.Contains(string(b), "\n; table ") || strings.Contains(string(b), "\n; maptable ") || strings.Contains(string(b), "\n; docs-yes ") || strings.Contains(string(b), "\n; golden-") || strings.Contains(string(b), "\n; const ") {
 			text, err = e.expandTables(text)
 			if err != nil {
 				fmt.Fprintln(os.Stderr, "ENGINE-ERROR lemma table:", err)
@@ -734,6 +734,13 @@ func (e *Engine) expandTables(text string) (string, error) {
 		if strings.HasPrefix(line, "; table ") {
 			name := strings.TrimSpace(line[len("; table "):])
 			def, err := e.tableDef(name)
+			if err != nil {
+				return "", err
+			}
+			out = append(out, def)
+			continue
+		}
+		if def, ok, err := e.lemmaDirective(line); ok {
 			if err != nil {
 				return "", err
 			}
